@@ -616,20 +616,23 @@ def materialise_files(spec):
     return d, d
 
 
-def make_case(c):
+def make_pieces(c):
     M = gen_schema(c, {"max_objects": 4, "max_interfaces": 2, "max_unions": 2, "max_enums": 2, "max_inputs": 2, "max_scalars": 2, "schema_directive": False, "query_directive": False})
     cov = covariate(c, M)
     M = decorate(c, M)
     pieces = split(c, M)
-    st = Style(c)
-    order = c.shuffle(pieces) if c.maybe(60) else pieces
+    return M, pieces, cov
+
+
+def render(c, M, pieces, st, cov=(), mode=None, shuffle=True):
+    order = c.shuffle(pieces) if (shuffle and c.maybe(60)) else list(pieces)
     chunks = []
     for p in order:
         ch = p_piece(st, p)
         if st.comments and c.maybe(30):
             ch = "# comment\n" + ch
         chunks.append(ch)
-    mode = c.weighted([(4, "string"), (2, "file"), (2, "list"), (2, "dir")])
+    mode = mode or c.weighted([(4, "string"), (2, "file"), (2, "list"), (2, "dir")])
     text = "\n\n".join(chunks) + "\n"
     spec = {"model": M, "mode": mode, "text": text, "sdl": text, "pieces": [(p["p"], p.get("name")) for p in order], "tags": sorted(cov) + (["leading_ampersand"] if st.lead_amp and "implements &" in text else [])}
     if mode != "string":
@@ -648,6 +651,11 @@ def make_case(c):
                 files.append([rel, "\n\n".join(g) + "\n"])
             spec["files"] = files
     return spec
+
+
+def make_case(c):
+    M, pieces, cov = make_pieces(c)
+    return render(c, M, pieces, Style(c), cov)
 
 
 def features(spec):
